@@ -189,8 +189,23 @@ func checkC09(c WKCase, st *stats.Collector) error {
 	for i, it := range baseIt.Items {
 		seqPos[it.M.Sequence] = i
 	}
-	for cut := 0; cut < len(file); cut++ {
-		res := mc.ReadMessages(bytes.NewReader(file[:cut]), false, false, 0, mcap.UsingIndex(false))
+	for cut := 0; cut < 2*len(file); cut++ {
+		// cuts >= len(file) revisit every third cut: the same Reader scans the remainder a second time (a tool
+		// that first looks how much survived and then processes it); the second scan is judged like the first
+		second := cut >= len(file)
+		if second {
+			cut -= len(file)
+			if cut%3 != 0 {
+				cut += len(file)
+				continue
+			}
+		}
+		var res mc.IterResult
+		if second {
+			_, res = mc.ReadMessagesTwice(bytesReader(file[:cut]), mcap.UsingIndex(false))
+		} else {
+			res = mc.ReadMessages(bytes.NewReader(file[:cut]), false, false, 0, mcap.UsingIndex(false))
+		}
 		evals++
 		if res.Panic != "" {
 			return pk.Failf("panic", "iterator, file cut at %d of %d: %s", cut, len(file), res.Panic)
@@ -222,7 +237,10 @@ func checkC09(c WKCase, st *stats.Collector) error {
 			}
 		}
 		if len(res.Items) < need {
-			return pk.Failf("incomplete", "iterator, cut at %d: %d messages returned (open=%v err=%v); chunks completely written before the cut hold %d", cut, len(res.Items), res.OpenErr, res.Err, need)
+			return pk.Failf("incomplete", "iterator (second scan on the same Reader: %v), cut at %d: %d messages returned (open=%v err=%v); chunks completely written before the cut hold %d", second, cut, len(res.Items), res.OpenErr, res.Err, need)
+		}
+		if second {
+			cut += len(file)
 		}
 	}
 	nt := 0
